@@ -325,3 +325,37 @@ func VerifC30_workLoopHardFinish() {
 	verifAssert(verifBlockedCount() == 0, "no goroutine is left blocked")
 	verifReached("c30-workloop-hardfinish")
 }
+
+// A bounded ring can be pushed past its limit by pushForce (promises of records that failed
+// before buffering must never block). A blocking push then has to wait until the ring is back
+// BELOW its limit, not merely until it stops being exactly full: limit 2, two pushes, one
+// pushForce (length 3), then a blocking push from another goroutine. It stays parked while
+// the worker drops the ring to 2 (still full) and is admitted only once a further drop makes
+// room; nothing is lost and the order is kept.
+func VerifC30_ringForcedPastLimit() {
+	verifPreemptions(2)
+	var r ring[int]
+	r.initMaxLen(2)
+	r.push(1)
+	r.push(2)
+	r.pushForce(3)
+	admitted := false
+	go func() {
+		r.push(4)
+		admitted = true
+	}()
+	verifRunAll()
+	verifAssert(!admitted, "a blocking push waits while the ring is over its limit")
+	next, more, _ := r.dropPeek() // 3 -> 2 elements: still at the limit
+	verifRunAll()
+	verifAssert(!admitted, "a blocking push keeps waiting while the ring is exactly at its limit")
+	verifAssert(more && next == 2, "dropPeek hands out the elements in order")
+	next, more, _ = r.dropPeek() // 2 -> 1: room
+	verifRunAll()
+	verifAssert(admitted, "a blocking push is admitted once the ring is below its limit")
+	verifAssert(more && next == 3, "dropPeek hands out the elements in order")
+	next, more, _ = r.dropPeek()
+	verifAssert(more && next == 4, "the admitted element is queued behind the forced one")
+	verifAssert(verifBlockedCount() == 0, "no goroutine is left blocked")
+	verifReached("c30-ring-forced-past-limit")
+}
